@@ -1,4 +1,5 @@
 import Rustic.Lemmas.ForgetProps
+import Rustic.Lemmas.ForgetCalendar
 /-
 C09 — Retention decisions follow the documented keep rules.
 
@@ -92,6 +93,145 @@ theorem heads_are_period_newest {κ : Type} (key : Snap → κ) (eq : Snap → S
     headOf eq ((ctxFrom none l)[i]'(by rw [ctxFrom_length]; omega)) = true
       ↔ ∀ (j : Nat) (hj : j < i), key (l[j]'(by omega)) ≠ key (l[i]'(by omega)) :=
   head_iff_newest_of_period key eq heq l hc i hlast
+
+/-! ### `PeriodContiguous` derived from the calendar (`Model/Calendar`, `Lemmas/Calendar`) -/
+
+/-- Every period key is a convex function of the local wall-clock second: between two seconds with the same
+year / half-year / quarter / month / ISO week / day / hour / minute, every second has the same one.  (From: the
+civil year is monotone in the day number, the month is monotone within a year, 1 January of a day's year is not
+after the day, the ISO-week Thursday is monotone.) -/
+theorem period_keys_convex :
+    Convex (fun s => (Civil.ofLocalSecs s).year) ∧
+    Convex (fun s => ((Civil.ofLocalSecs s).year, ((Civil.ofLocalSecs s).month - 1) / 6)) ∧
+    Convex (fun s => ((Civil.ofLocalSecs s).year, ((Civil.ofLocalSecs s).month - 1) / 3)) ∧
+    Convex (fun s => ((Civil.ofLocalSecs s).year, (Civil.ofLocalSecs s).month)) ∧
+    Convex (fun s => ((Civil.ofLocalSecs s).isoYear, (Civil.ofLocalSecs s).isoWeek)) ∧
+    Convex (fun s => ((Civil.ofLocalSecs s).year, (Civil.ofLocalSecs s).doy)) ∧
+    Convex (fun s => ((Civil.ofLocalSecs s).year, (Civil.ofLocalSecs s).doy, (Civil.ofLocalSecs s).hour)) ∧
+    Convex (fun s => ((Civil.ofLocalSecs s).year, (Civil.ofLocalSecs s).doy, (Civil.ofLocalSecs s).hour,
+      (Civil.ofLocalSecs s).minute)) :=
+  ⟨convex_year, convex_half, convex_quarter, convex_month, convex_week, convex_day, convex_hour, convex_minute⟩
+
+/-- The calendar facts behind it, for all day numbers (no range restriction). -/
+theorem calendar_monotone (z1 z2 : Int) (h : z1 ≤ z2) :
+    yearOf z1 ≤ yearOf z2 ∧ (yearOf z1 = yearOf z2 → monthOf z1 ≤ monthOf z2) ∧ daysFromCivil (yearOf z1) 1 1 ≤ z1 :=
+  ⟨yearOf_mono z1 z2 h, monthOf_mono z1 z2 h, jan1_le z1⟩
+
+/-- The calendar model is a bijection between day numbers and civil dates with month 1..12, day 1..31: the date of
+a day number determines it (so distinct days never share (year, month, day), for all integers). -/
+theorem calendar_round_trip (z : Int) :
+    daysFromCivil (civilFromDays z).1 (civilFromDays z).2.1 (civilFromDays z).2.2 = z ∧
+    1 ≤ (civilFromDays z).2.1 ∧ (civilFromDays z).2.1 ≤ 12 ∧ 1 ≤ (civilFromDays z).2.2 ∧ (civilFromDays z).2.2 ≤ 31 :=
+  daysFromCivil_civilFromDays z
+
+/-- What holds for ANY mix of zone offsets: if the snapshots carry the civil fields of their own `Zoned`
+(`CivilOk`) and the list is newest-first by LOCAL wall-clock time, equal period keys are adjacent, for all
+eight period rules. -/
+theorem period_contiguous_local_order (l : List Snap) (hc : ∀ s ∈ l, s.CivilOk) (hs : LocalSortedDesc l) :
+    PeriodContiguous keyYear l ∧ PeriodContiguous keyHalfYear l ∧ PeriodContiguous keyQuarterYear l ∧
+    PeriodContiguous keyMonth l ∧ PeriodContiguous keyWeek l ∧ PeriodContiguous keyDay l ∧
+    PeriodContiguous keyHour l ∧ PeriodContiguous keyMinute l :=
+  periodContiguous_all l hc hs
+
+/-- One zone offset for all snapshots (the usual case: one machine, one zone): the order `apply` sorts by
+(newest instant first) is an order by local time, so `PeriodContiguous` holds — it is no longer a hypothesis. -/
+theorem period_contiguous_fixed_offset (l : List Snap) (off : Int) (hc : ∀ s ∈ l, s.CivilOk)
+    (hoff : ∀ s ∈ l, s.off = off) (hs : isSortedDesc l = true) :
+    PeriodContiguous keyYear l ∧ PeriodContiguous keyHalfYear l ∧ PeriodContiguous keyQuarterYear l ∧
+    PeriodContiguous keyMonth l ∧ PeriodContiguous keyWeek l ∧ PeriodContiguous keyDay l ∧
+    PeriodContiguous keyHour l ∧ PeriodContiguous keyMinute l :=
+  periodContiguous_all l hc (localSorted_of_fixed_offset l off hoff hs)
+
+/-- `heads_are_period_newest` without the contiguity hypothesis, for one zone offset and every period rule:
+an X-head that is not the oldest snapshot is the newest snapshot of its X-period. -/
+theorem heads_are_period_newest_fixed_offset (l : List Snap) (off : Int) (hc : ∀ s ∈ l, s.CivilOk)
+    (hoff : ∀ s ∈ l, s.off = off) (hs : isSortedDesc l = true) (i : Nat) (hlast : i + 1 < l.length) :
+    HeadIsNewest keyYear equalYear l i hlast ∧ HeadIsNewest keyHalfYear equalHalfYear l i hlast ∧
+    HeadIsNewest keyQuarterYear equalQuarterYear l i hlast ∧ HeadIsNewest keyMonth equalMonth l i hlast ∧
+    HeadIsNewest keyWeek equalWeek l i hlast ∧ HeadIsNewest keyDay equalDay l i hlast ∧
+    HeadIsNewest keyHour equalHour l i hlast ∧ HeadIsNewest keyMinute equalMinute l i hlast := by
+  obtain ⟨c1, c2, c3, c4, c5, c6, c7, c8⟩ := period_contiguous_fixed_offset l off hc hoff hs
+  exact ⟨heads_are_period_newest _ _ equalYear_iff l c1 i hlast,
+    heads_are_period_newest _ _ equalHalfYear_iff l c2 i hlast,
+    heads_are_period_newest _ _ equalQuarterYear_iff l c3 i hlast,
+    heads_are_period_newest _ _ equalMonth_iff l c4 i hlast,
+    heads_are_period_newest _ _ equalWeek_iff l c5 i hlast,
+    heads_are_period_newest _ _ equalDay_iff l c6 i hlast,
+    heads_are_period_newest _ _ equalHour_iff l c7 i hlast,
+    heads_are_period_newest _ _ equalMinute_iff l c8 i hlast⟩
+
+/-- "…the newest snapshot of one of the newest N distinct periods": with one zone offset, while all newer
+snapshots are ordinary, the rank of the i-th snapshot for period rule X is the NUMBER OF DISTINCT X-periods among
+the snapshots newer than it (`distinctPeriods` counts first occurrences of keys) — so by `kept_iff_rule` an
+X-head is kept by `keep-X N` exactly while fewer than N distinct newer periods exist. -/
+theorem rank_counts_distinct_periods_fixed_offset (o : KeepOptions) (now : Int) (l : List Snap) (off : Int)
+    (hc : ∀ s ∈ l, s.CivilOk) (hoff : ∀ s ∈ l, s.off = off) (hs : isSortedDesc l = true) (i : Nat) (hi : i < l.length)
+    (hord : ∀ c ∈ (ctxFrom none l).take i, kind o now c = .ord) :
+    rank o now equalYear ((ctxFrom none l).take i) = distinctPeriods keyYear (l.take i) ∧
+    rank o now equalHalfYear ((ctxFrom none l).take i) = distinctPeriods keyHalfYear (l.take i) ∧
+    rank o now equalQuarterYear ((ctxFrom none l).take i) = distinctPeriods keyQuarterYear (l.take i) ∧
+    rank o now equalMonth ((ctxFrom none l).take i) = distinctPeriods keyMonth (l.take i) ∧
+    rank o now equalWeek ((ctxFrom none l).take i) = distinctPeriods keyWeek (l.take i) ∧
+    rank o now equalDay ((ctxFrom none l).take i) = distinctPeriods keyDay (l.take i) ∧
+    rank o now equalHour ((ctxFrom none l).take i) = distinctPeriods keyHour (l.take i) ∧
+    rank o now equalMinute ((ctxFrom none l).take i) = distinctPeriods keyMinute (l.take i) := by
+  obtain ⟨c1, c2, c3, c4, c5, c6, c7, c8⟩ := period_contiguous_fixed_offset l off hc hoff hs
+  have go : ∀ {κ : Type} [DecidableEq κ] (key : Snap → κ) (eq : Snap → Snap → Bool)
+      (_ : ∀ a b, eq a b = true ↔ key a = key b) (_ : PeriodContiguous key l),
+      rank o now eq ((ctxFrom none l).take i) = distinctPeriods key (l.take i) := by
+    intro κ _ key eq heq hpc
+    rw [show rank o now eq ((ctxFrom none l).take i) = runsFrom key none (l.take i) from
+      rank_eq_runs key eq heq o now l none i hi hord]
+    exact runs_eq_distinct key _ (periodContiguous_take key l hpc i)
+  exact ⟨go _ _ equalYear_iff c1, go _ _ equalHalfYear_iff c2, go _ _ equalQuarterYear_iff c3,
+    go _ _ equalMonth_iff c4, go _ _ equalWeek_iff c5, go _ _ equalDay_iff c6, go _ _ equalHour_iff c7,
+    go _ _ equalMinute_iff c8⟩
+
+/-- Mixed zone offsets, newest-first by INSTANT (what `apply` sorts by): contiguity can fail — the hypothesis
+`PeriodContiguous` (or local order) stays exactly there.  2020-01-01T23:50Z (UTC: 1 Jan), 23:40Z at +01:00
+(local 2 Jan 00:40), 23:30Z (UTC: 1 Jan), then 31 Dec and 30 Dec: the days read 1 Jan, 2 Jan, 1 Jan, so
+`keep-daily 3` keeps the three newest snapshots (two of them of 1 Jan) and drops 31 Dec, the third-newest
+distinct day.  Replayed on the real code: corpus/C09/witnesses.ops (`mixed offsets`). -/
+def mixedOffsets : List Snap :=
+  [ Snap.ofInstant 1577922600000000000 0 "a0" 1 [] .notSet, Snap.ofInstant 1577922000000000000 3600 "a1" 1 [] .notSet,
+    Snap.ofInstant 1577921400000000000 0 "a2" 1 [] .notSet, Snap.ofInstant 1577793600000000000 0 "a3" 1 [] .notSet,
+    Snap.ofInstant 1577707200000000000 0 "a4" 1 [] .notSet ]
+
+def keepDaily3 : KeepOptions :=
+  { keepTags := [], keepIds := [], keepNone := false, deleteUnchanged := false,
+    slots := [⟨none, none⟩, ⟨none, none⟩, ⟨none, none⟩, ⟨some 3, none⟩, ⟨none, none⟩, ⟨none, none⟩, ⟨none, none⟩,
+      ⟨none, none⟩, ⟨none, none⟩] }
+
+theorem period_contiguous_fails_with_mixed_offsets :
+    isSortedDesc mixedOffsets = true ∧ (∀ s ∈ mixedOffsets, s.CivilOk) ∧ ¬ PeriodContiguous keyDay mixedOffsets ∧
+    mixedOffsets.map keyDay = [(2020, 1), (2020, 2), (2020, 1), (2019, 365), (2019, 364)] ∧
+    (applySorted keepDaily3 mixedOffsets 0).map (·.keep) = [true, true, true, false, false] := by
+  refine ⟨by decide, ?_, ?_, by decide, by decide⟩
+  · intro s hs
+    simp only [mixedOffsets, List.mem_cons, List.not_mem_nil, or_false] at hs
+    rcases hs with rfl | rfl | rfl | rfl | rfl <;> exact ofInstant_civilOk _ _ _ _ _ _
+  · intro h
+    exact absurd (h 0 1 2 (by decide) (by decide) (by decide) (by decide)) (by decide)
+
+/-! ### delete marks: the boundary -/
+
+/-- "Snapshots whose delete-after time has passed are removed": *passed* is strict.  A snapshot whose
+delete-after time equals `now` exactly is still protected (`must_keep`, tested first by `apply`) and is not
+`must_delete`; one nanosecond later it is `must_delete` and not protected.  For every mark exactly one of
+protected / expired / ordinary holds.  (`must_delete` / `must_keep` are tied directly by the `mark` channel:
+inside `apply` the `<` of `must_delete` is shadowed by `must_keep`.) -/
+theorem delete_after_boundary (sn : Snap) (t now : Int) (h : sn.delete = .after t) :
+    (mustDelete sn now = true ↔ t < now) ∧ (mustKeep sn now = true ↔ now ≤ t) ∧
+    (t = now → mustKeep sn now = true ∧ mustDelete sn now = false) ∧
+    (mustKeep sn now = true ↔ mustDelete sn now = false) := by
+  simp [mustDelete, mustKeep, h]
+  omega
+
+theorem delete_marks_exclusive (sn : Snap) (now : Int) :
+    ¬ (mustKeep sn now = true ∧ mustDelete sn now = true) ∧
+    (sn.delete = .never → mustKeep sn now = true) ∧
+    (sn.delete = .notSet → mustKeep sn now = false ∧ mustDelete sn now = false) := by
+  cases hd : sn.delete <;> simp [mustKeep, mustDelete, hd]
 
 /-- "…or the oldest snapshot while a counter remains": the oldest snapshot is a head of every rule. -/
 theorem oldest_is_always_head (eq : Snap → Snap → Bool) (l : List Snap) (i : Nat) (hlast : i + 1 = l.length) :
@@ -204,6 +344,8 @@ example : OptsLe exOpts { exOpts with slots := exOpts.slots.set 3 ⟨some 2, non
   repeat (first | exact SlotsLe.nil | refine SlotsLe.cons rfl (by simp [CountLe]) ?_)
 /-- two distinct days (246, 245, 245) among the three newest snapshots of `exSnaps` -/
 example : runsFrom keyDay none (exSnaps.take 3) = 2 := by decide
+example : distinctPeriods keyDay (exSnaps.take 3) = 2 ∧ distinctPeriods keyDay mixedOffsets = 4 ∧
+    runsFrom keyDay none mixedOffsets = 5 := by decide
 example : PeriodContiguous keyDay exSnaps := by
   have key : ∀ (i j k : Fin 4), i < j → j < k →
       keyDay (exSnaps[i.1]'i.2) = keyDay (exSnaps[k.1]'k.2) → keyDay (exSnaps[j.1]'j.2) = keyDay (exSnaps[k.1]'k.2) := by
